@@ -93,6 +93,13 @@ def set_tty_mode(fd, cooked, mode):
         termios.tcsetattr(fd, termios.TCSANOW, a)
 
 
+def fionread(fd):
+    import array
+    buf = array.array('i', [0])
+    fcntl.ioctl(fd, termios.FIONREAD, buf)
+    return buf[0]
+
+
 OUTER = {"Input", "BaseWindow", "FullscreenWindow", "CursorAwareWindow", "Cbreak", "Termmode"}
 
 
@@ -618,15 +625,25 @@ def run_reuse(ctx, case):
         try:
             with inp:
                 inp.send(0)
+                inp.send(0.02)       # a request that has to wait: nothing is typed
         except BaseException as ex:  # noqa
             box.append(repr(ex))
 
+    app_pipes = []       # (read end, write end, bytes the application wrote and has not read)
     for k, where in enumerate(case["uses"]):
         box = []
         if where == "thread":
-            t = threading.Thread(target=use, args=(box,))
+            t = threading.Thread(target=use, args=(box,), daemon=True)
             t.start()
-            t.join(20)
+            t.join(8)
+            if t.is_alive():
+                # a 20 ms request on a worker thread that has not ended after 8 s never will; the
+                # process is given up (the stuck thread spins)
+                problems.append("use %d (%s): a request with a 0.02 s timeout did not return within 8 s" % (k, where))
+                ctx.judge(False, case, ("C12", "reuse", repr(case)), "C12:instance-reuse", "state as before entering",
+                          problems, nontrivial=True)
+                ctx.notes["stuck_worker_thread"] = True
+                return
         else:
             use(box)
         if box:
@@ -636,9 +653,22 @@ def run_reuse(ctx, case):
                 os.fstat(e)
             except OSError:
                 problems.append("descriptor %d opened by the application was closed by use %d (%s)" % (e, k, where))
-        # the application opens descriptors between uses; they may get recycled numbers
+        for r_, w_, data in app_pipes:
+            # what the application wrote into its own pipes is still there, untouched
+            try:
+                n = fionread(r_)
+            except OSError:
+                n = -1
+            if n != len(data):
+                problems.append("use %d (%s) consumed data from a pipe of the application (%d of %d bytes left)"
+                                % (k, where, n, len(data)))
+        # the application opens descriptors between uses (they may get recycled numbers) and
+        # writes to them
         if not problems:
-            extras.extend(os.pipe())
+            r_, w_ = os.pipe()
+            extras.extend((r_, w_))
+            os.write(w_, b"application data \x02\x02")
+            app_pipes.append((r_, w_, b"application data \x02\x02"))
         now = snap(fd)
         want_fds = dict(base["fds"])
         got_fds = {n: v for n, v in now["fds"].items() if n not in extras}
